@@ -11,5 +11,5 @@ CONSTANTS
   PoolSet = {FALSE, TRUE}
   Quick = FALSE
 CONSTRAINT Emit
-INVARIANTS InvRefines InvWire InvCloseLast InvFailStop InvPool
+INVARIANTS InvRefines InvWire InvCloseLast InvFailStop InvPool InvDone
 CHECK_DEADLOCK FALSE
